@@ -86,6 +86,7 @@ type Regex struct {
 	engine  *meta.Engine
 	pattern string
 	longest bool // if true, prefer leftmost-longest match (POSIX semantics)
+	posix   bool // if true, the pattern was parsed as POSIX ERE (CompilePOSIX)
 }
 
 // Regexp is an alias for Regex to provide drop-in compatibility with stdlib regexp.
@@ -147,9 +148,20 @@ func MustCompile(pattern string) *Regex {
 // that early regular expression implementations used and that POSIX
 // specifies.
 func CompilePOSIX(pattern string) (*Regex, error) {
-	re, err := Compile(pattern)
+	// POSIX ERE is another language than Perl syntax: no \d, \pL, (?i), lazy
+	// operators or \z, and ^ / $ are line anchors. Parse it as such.
+	parsed, err := syntax.Parse(pattern, syntax.POSIX)
+	if err != nil {
+		return nil, &meta.CompileError{Pattern: pattern, Err: err}
+	}
+	engine, err := meta.CompileRegexp(parsed, meta.DefaultConfig())
 	if err != nil {
 		return nil, err
+	}
+	re := &Regex{
+		engine:  engine,
+		pattern: pattern,
+		posix:   true,
 	}
 	re.Longest()
 	return re, nil
@@ -483,7 +495,11 @@ func (r *Regex) Longest() {
 //	prefix2, complete2 := re2.LiteralPrefix()
 //	// prefix2 = "Hello", complete2 = true
 func (r *Regex) LiteralPrefix() (prefix string, complete bool) {
-	re, err := syntax.Parse(r.pattern, syntax.Perl)
+	flags := syntax.Perl
+	if r.posix {
+		flags = syntax.POSIX
+	}
+	re, err := syntax.Parse(r.pattern, flags)
 	if err != nil {
 		return "", false
 	}
@@ -1632,7 +1648,11 @@ func (r *Regex) Copy() *Regex {
 	// Create a new Regex with the same pattern
 	// Note: This re-compiles the pattern, which is slightly slower than
 	// sharing the internal engine, but ensures complete independence.
-	re, err := Compile(r.pattern)
+	compile := Compile
+	if r.posix {
+		compile = CompilePOSIX
+	}
+	re, err := compile(r.pattern)
 	if err != nil {
 		// This should never happen since the pattern was already compiled
 		return nil
